@@ -55,12 +55,12 @@ Proof. vm_compute. reflexivity. Qed.
 
 (* dict_roundtrip and == on a system with doses *)
 Example ex_roundtrip :
-  from_dict (to_dict (ex_g, Sym sT)) = Some (ex_g, Sym sT) /\ cs_eq (ex_g, Sym sT) (ex_g, Sym sT) = Some true /\
+  from_dict (to_dict (ex_g, Sym sT)) = Some (ex_g, Sym sT) /\ cs_eq (ex_g, Sym sT) (ex_g, Sym sT) = true /\
   dosing_compartments ex_g <> None.
 Proof. repeat split; vm_compute; try reflexivity. discriminate. Qed.
 
-(* the refuted guard is really false on its witness; the hypotheses of mass_balance also hold on the
-   self-flow system (which is why no guard is needed any more) *)
+(* the hypotheses of mass_balance also hold on the self-flow system (no guard needed any more); the
+   dose-less system really has no dosing compartments *)
 Example ex_guards :
   rates_defined_b (build selfloop_ops) selfloop_env std_fi = true /\
   comps_defined_b (build selfloop_ops) selfloop_env std_fi = true /\
